@@ -70,10 +70,10 @@ func (g *gatedSrv) SetGate(closed bool) {
 type tgtInc struct {
 	stream   *gatedSrv
 	cancel   context.CancelFunc
-	seen     int              // emitted messages already reported
+	seen     int                // emitted messages already reported
 	byProxy  map[int64][2]int64 // proxy id -> (source, original id)
-	acked    int64            // highest inclusive-low watermark this incarnation sent
-	lastHigh int64            // highest exclusive high received (for protocol-conform acks)
+	acked    int64              // highest inclusive-low watermark this incarnation sent
+	lastHigh int64              // highest exclusive high received (for protocol-conform acks)
 	broken   bool
 	highs    []int64
 	lastID   int64
@@ -84,36 +84,36 @@ type rTask struct {
 	id     int64
 	owner  int
 	pb     *replicationpb.ReplicationTask // pristine copy
-	faulty bool                            // received in a trace prefix with faults
-	srcInc int                             // incarnation of the source receiver that received it
+	faulty bool                           // received in a trace prefix with faults
+	srcInc int                            // incarnation of the source receiver that received it
 }
 
 type rWorld struct {
-	t        *testing.T
-	ns, nt   int
-	sm       proxy.ShardManager
-	toX, toY *multiClient
+	t          *testing.T
+	ns, nt     int
+	sm         proxy.ShardManager
+	toX, toY   *multiClient
 	srvX, srvY adminservice.AdminServiceServer
-	stopAll  context.CancelFunc
-	lifetime context.Context
-	srcSrv   []*srvStream
-	srcCancel []context.CancelFunc
-	srcCli   []*cliStream // current client stream towards X for source s
-	srcSeen  []int
-	srcInc   []int
+	stopAll    context.CancelFunc
+	lifetime   context.Context
+	srcSrv     []*srvStream
+	srcCancel  []context.CancelFunc
+	srcCli     []*cliStream // current client stream towards X for source s
+	srcSeen    []int
+	srcInc     []int
 	srcLastAck []int64
-	srcHasAck []bool
-	tgt      []*tgtInc   // current incarnation per target (nil if never opened)
-	tgtHist  [][]*tgtInc // all incarnations
-	wf       []string    // workflow id owned by target t
+	srcHasAck  []bool
+	tgt        []*tgtInc   // current incarnation per target (nil if never opened)
+	tgtHist    [][]*tgtInc // all incarnations
+	wf         []string    // workflow id owned by target t
 	// monitor state
-	received [][]*rTask // per source
-	lastHigh []int64
-	faults   bool
+	received    [][]*rTask // per source
+	lastHigh    []int64
+	faults      bool
 	emittedOnce map[string]int // "s:id" -> times emitted
-	keepalives int
-	noSleep  bool
-	viol     []map[string]any
+	keepalives  int
+	noSleep     bool
+	viol        []map[string]any
 }
 
 func wfFor(n int32, want int32) string {
@@ -412,6 +412,9 @@ func (w *rWorld) confirmed(rt *rTask, src int) (bool, string) {
 	for _, ti := range w.tgtHist[rt.owner] {
 		for p, so := range ti.byProxy {
 			if int(so[0]) == src && so[1] == rt.id && ti.acked > p {
+				if os.Getenv("VERIF_DEBUG_ACK") != "" {
+					fmt.Fprintf(os.Stderr, "DEBUG confirmed: src %d task %d owner %d proxy %d acked %d\n", src, rt.id, rt.owner, p, ti.acked)
+				}
 				return true, ""
 			}
 		}
@@ -436,6 +439,17 @@ func (w *rWorld) confirmed(rt *rTask, src int) (bool, string) {
 	return false, where
 }
 
+// firstReceiptInc: the earliest incarnation of source stream s that received the task (same id, same owner)
+func (w *rWorld) firstReceiptInc(s int, rt *rTask) int {
+	first := rt.srcInc
+	for _, o := range w.received[s] {
+		if o.id == rt.id && o.owner == rt.owner && o.srcInc < first {
+			first = o.srcInc
+		}
+	}
+	return first
+}
+
 func (w *rWorld) monitorAck(s int, a int64) {
 	// C03 safety
 	if w.srcHasAck[s] && a < w.srcLastAck[s] && !w.faults {
@@ -444,25 +458,43 @@ func (w *rWorld) monitorAck(s int, a int64) {
 	if a > w.lastHigh[s] {
 		w.violation("C03", fmt.Sprintf("ack %d to source %d exceeds the last exclusive high %d it sent", a, s, w.lastHigh[s]), nil)
 	}
-	// C01 / C04
+	// C01 / C04: every received task below the ack must be confirmed. A violation that falls under a recorded finding is
+	// attributed to it — but only if NO other task below the ack is unconfirmed for a reason outside the findings
+	// (the scan does not stop at the first excused task: an excused task must not hide an unexcused one).
+	var firstExcused func()
 	for _, rt := range w.received[s] {
 		if rt.id < a {
 			if ok, where := w.confirmed(rt, s); !ok {
+				if os.Getenv("VERIF_DEBUG_ACK") != "" {
+					fmt.Fprintf(os.Stderr, "DEBUG ack %d src %d: task %d owner %d unconfirmed: %s (srcInc %d cur %d)\n", a, s, rt.id, rt.owner, where, rt.srcInc, w.srcInc[s])
+				}
 				prop := "C01"
 				extra := map[string]any{}
 				if w.faults {
 					prop = "C04"
 					if strings.Contains(where, "broke before confirming") {
 						extra["finding"] = "C04-target-break-loses-inflight"
-					} else if rt.srcInc < w.srcInc[s] {
+					} else if first := w.firstReceiptInc(s, rt); first < w.srcInc[s] {
+						// as `Excused` of Spec/RoutingFaults.lean: the task (same id, same owner) was received by an earlier
+						// incarnation of the source stream too (re-sent after the restart or not)
 						extra["finding"] = "C04-source-restart-forgets-targets"
-						where += fmt.Sprintf("; the task was received by incarnation %d of the source stream, the ack was sent by incarnation %d", rt.srcInc, w.srcInc[s])
+						where += fmt.Sprintf("; the task was received by incarnation %d of the source stream, the ack was sent by incarnation %d", first, w.srcInc[s])
 					}
 				}
-				w.violation(prop, fmt.Sprintf("source %d was sent ack %d but its task %d %s", s, a, rt.id, where), extra)
+				what := fmt.Sprintf("source %d was sent ack %d but its task %d %s", s, a, rt.id, where)
+				if _, excused := extra["finding"]; excused {
+					if firstExcused == nil {
+						firstExcused = func() { w.violation(prop, what, extra) }
+					}
+					continue
+				}
+				w.violation(prop, what, extra)
 				return
 			}
 		}
+	}
+	if firstExcused != nil {
+		firstExcused()
 	}
 }
 
